@@ -87,4 +87,24 @@ Section Rules.
     unfold parse_throttle. destruct v as [|c t]; [discriminate|]. destruct (all_dec _); [|discriminate].
     intros H. injection H as <-. apply dec_value_nonneg. lia.
   Qed.
+
+  (* after a bare --, every further argument is a positional argument taken as written (further -- are skipped):
+     nothing is read as a flag, and -h / -v / -q are not expanded *)
+  Lemma stl_dashdash a : String.eqb (short_to_long a) "--" = String.eqb a "--".
+  Proof.
+    unfold short_to_long.
+    destruct (String.eqb a "-h") eqn:E1; [apply String.eqb_eq in E1; subst; reflexivity|].
+    destruct (String.eqb a "-v") eqn:E2; [apply String.eqb_eq in E2; subst; reflexivity|].
+    destruct (String.eqb a "-q") eqn:E3; [apply String.eqb_eq in E3; subst; reflexivity|].
+    reflexivity.
+  Qed.
+  Theorem after_dashdash_literal argv : forall flags pos,
+    scan argv true flags pos = inr (flags, (pos ++ filter (fun a => negb (String.eqb a "--")) argv)%list).
+  Proof.
+    induction argv as [|a r IH]; intros flags pos; cbn [scan filter].
+    - rewrite app_nil_r. reflexivity.
+    - rewrite stl_dashdash. destruct (String.eqb a "--") eqn:E; cbn [negb andb].
+      + apply IH.
+      + rewrite IH, <- app_assoc. reflexivity.
+  Qed.
 End Rules.
